@@ -302,7 +302,7 @@ theorem chunkLoop_spec {w n : Nat} {fs : Bool} {radix p : Nat} (hn : 1 ≤ n)
     have hLpos : 0 < rest.length := List.length_pos_iff.mpr hne
     have hpL : p ≤ rest.length := Nat.le_of_dvd hLpos hdvd
     have hdvd' : p ∣ (rest.drop p).length := by
-      rw [List.length_drop]; exact (Nat.dvd_sub_iff_right hpL (Nat.dvd_refl p)).mpr hdvd
+      rw [List.length_drop]; exact Nat.dvd_sub hdvd (Nat.dvd_refl p)
     have hf' : (rest.drop p).length ≤ f := by rw [List.length_drop]; omega
     have htl : (rest.take p).length = p := by rw [List.length_take]; omega
     rw [chunkLoop_succ _ _ _ _ _ _ _ _ hne]
@@ -312,9 +312,9 @@ theorem chunkLoop_spec {w n : Nat} {fs : Bool} {radix p : Nat} (hn : 1 ≤ n)
     have hsplit : horner radix (U w out) (digs fs rest)
         = horner radix (U w out * radix ^ p + valueOf radix (digs fs (rest.take p)))
             (digs fs (rest.drop p)) := by
-      conv => lhs; rw [← List.take_append_drop p rest, digs_append, horner_append, horner_eq]
-      simp [htl]
-    have hnn : valueOf radix (digs fs (rest.take p)) < radix ^ p → True := fun _ => trivial
+      have e : digs fs rest = digs fs (rest.take p) ++ digs fs (rest.drop p) := by
+        rw [← digs_append, List.take_append_drop]
+      rw [e, horner_append, horner_eq, digs_length, htl]
     rw [ho.1]
     generalize hm : mulDigitLoop w (radix ^ p) out 0 = m at *
     have hum := U_lt m1
@@ -324,9 +324,13 @@ theorem chunkLoop_spec {w n : Nat} {fs : Bool} {radix p : Nat} (hn : 1 ≤ n)
       intro hv
       rw [hv] at hinv
       have hv1 : hasInvalid fs radix (rest.take p) = false := by
-        cases h : hasInvalid fs radix (rest.take p) <;> simp_all
+        cases h : hasInvalid fs radix (rest.take p)
+        · rfl
+        · rw [h] at hinv; simp at hinv
       have hv2 : hasInvalid fs radix (rest.drop p) = false := by
-        cases h : hasInvalid fs radix (rest.drop p) <;> simp_all
+        cases h : hasInvalid fs radix (rest.drop p)
+        · rfl
+        · rw [h] at hinv; simp at hinv
       have hlt : valueOf radix (digs fs (rest.take p)) < radix ^ p := by
         have := valueOf_lt (r := radix) (digs fs (rest.take p))
           (by have := hasInvalid_false_iff.mp hv1; rwa [h256] at this)
@@ -355,8 +359,8 @@ theorem chunkLoop_spec {w n : Nat} {fs : Bool} {radix p : Nat} (hn : 1 ≤ n)
         · obtain ⟨o, e1, e2, e3⟩ := a1 hfit
           rw [e1]
           simp only
-          rw [(ih (rest.drop p) o e2 hdvd' hf').1 hv2, hsplit, e3]
-          congr 3 <;> omega
+          have m3' : U w m.1 = U w out * radix ^ p := by omega
+          rw [(ih (rest.drop p) o e2 hdvd' hf').1 hv2, hsplit, e3, m3']
         · rw [a2 (by omega)]
           simp only
           rw [if_neg (by omega)]
@@ -381,7 +385,8 @@ theorem chunkLoop_spec {w n : Nat} {fs : Bool} {radix p : Nat} (hn : 1 ≤ n)
         rw [hc0] at m3
         rw [hacc]
         cases hv1 : hasInvalid fs radix (rest.take p)
-        · have hv2 : hasInvalid fs radix (rest.drop p) = true := by simp_all
+        · have hv2 : hasInvalid fs radix (rest.drop p) = true := by
+            rw [hv1] at hinv; simpa using hinv.symm
           simp only [Bool.false_eq_true, if_false]
           rw [← valueOf_eq_horner]
           have hlt : valueOf radix (digs fs (rest.take p)) < radix ^ p := by
